@@ -428,8 +428,9 @@ def _recover(res, kind, image, plan, exp, stale_blobs, sig_base, ctx, depth=0):
             lib = ml.MoleculeLibrary(path)
             with lib.reading():
                 ks = sorted(lib.keys())
-                ok = _check_view(res, sig_base, "MoleculeLibrary.reading (raw bytes)", [k.encode("latin-1") for k in ks],
-                                 lambda kb: lib._backend.get(kb.decode("latin-1")), must, may, ctx)
+                raw_ = getattr(lib, "_backend", None)      # (raw record bytes, where the library lets one at them)
+                ok = raw_ is None or _check_view(res, sig_base, "MoleculeLibrary.reading (raw bytes)", [k.encode("latin-1") for k in ks],
+                                                 lambda kb: raw_.get(kb.decode("latin-1")), must, may, ctx)
                 if ok:
                     for k in ks:
                         try:
@@ -744,7 +745,8 @@ def _run_live(plan, trace=False):
 
         def victim():
             c = pickle.loads(stale_blob) if lv["victim_stale"] else _mk_coll(path, False, plan["coll_bufsize"])
-            c._backend._bufsize = plan["coll_bufsize"]
+            if hasattr(getattr(c, "_backend", None), "_bufsize"):
+                c._backend._bufsize = plan["coll_bufsize"]
             kern.set_phase("session")
             with c.writing():
                 events.append((kern.seq, victim_pid, "body"))
